@@ -197,6 +197,25 @@ def run(ck):
                         inp, float(numpy.abs(R2 - R).max()))
         except Exception as e:
             ck.fail("raises:RedfieldRateMatrix:second", "second construction raised %r" % (e,), inp)
+        # the same system with its system-bath interaction put together by hand (correlation-function matrix created with the number of
+        # functions preset and explicit function indices, site projectors): the same rates
+        try:
+            from quantarhei.qm.corfunctions import CorrelationFunctionMatrix
+            from quantarhei.qm import SystemBathInteraction, Operator
+            cmx = CorrelationFunctionMatrix(ta, n, n)
+            for k in range(n):
+                cmx.set_correlation_function(sbi.CC.get_correlation_function(k, k), [(k, k)], k + 1)
+            opsx = []
+            for k in range(n):
+                dk = numpy.zeros((Na, Na)); dk[k + 1, k + 1] = 1.0
+                opsx.append(Operator(data=dk))
+            R3 = numpy.array(RedfieldRateMatrix(ham, SystemBathInteraction(opsx, cmx)).data)
+            ck.case(("redfield-explicit-sbi", s), nontrivial=unequal, kind="redfield", sites=n, T=T, far=far, unequal_lambda=unequal)
+            if numpy.abs(R3 - R).max() > 1e-9 * scale:
+                ck.fail("golden:matrix:hand-built-sbi", "Redfield rates for a system-bath interaction assembled by hand (explicit function indices) differ "
+                        "from those of the aggregate's own system-bath interaction with the same bath functions", inp, float(numpy.abs(R3 - R).max() / scale))
+        except Exception as e:
+            ck.fail("raises:RedfieldRateMatrix:hand-built-sbi", "construction from a hand-built system-bath interaction raised %r" % (e,), inp)
         # ---------------- time-dependent rates: probability conservation at every time -------------------------------
         if s % 3 == 0:
             try:
